@@ -85,6 +85,8 @@ type Monitor struct {
 	statusOf             map[string]int
 	lastBankBad          bool
 	lastHash, lastHashOp string
+	gDumps, gBefore      map[string]string
+	gAfter               bool
 	confs                map[string]string
 	regBy                map[string]string
 	obefore              *oracleSnap
@@ -295,6 +297,10 @@ func (m *Monitor) Before(g *Gen, line string) {
 }
 
 func (m *Monitor) After(g *Gen, line, out string) {
+	if m.prop == "C15" {
+		m.checkC15(g, strings.Fields(line), out)
+		return
+	}
 	if m.prop == "C14" {
 		w := strings.Fields(line)
 		if len(w) > 0 && w[0] == "hash" {
@@ -1905,4 +1911,143 @@ func indexOfKey(k interface{}) int {
 		}
 	}
 	return 0
+}
+
+// ---------------------------------------------------------------- C15 genesis round trip
+
+// The dumps taken right before and right after `export_import` must agree section by section:
+// every section that differs is a lost (or altered) part of the bridge state.
+func (m *Monitor) checkC15(g *Gen, w []string, out string) {
+	if len(w) == 0 {
+		return
+	}
+	if w[0] == "export_import" {
+		if out != "ok" {
+			m.report(g, "export-import-failed", g.env.lastPanic)
+		}
+		m.gBefore, m.gDumps, m.gAfter = m.gDumps, map[string]string{}, true
+		return
+	}
+	if w[0] != "dump" {
+		if m.gAfter {
+			m.gAfter = false
+			m.gBefore = nil
+		}
+		return
+	}
+	if m.gDumps == nil {
+		m.gDumps = map[string]string{}
+	}
+	key := strings.Join(w[1:], " ")
+	m.gDumps[key] = out
+	if m.gAfter && m.gBefore != nil {
+		if prev, ok := m.gBefore[key]; ok && prev != out {
+			for _, cls := range diffGenesisSection(w[1:], prev, out) {
+				m.report(g, "lost:"+cls, fmt.Sprintf("section %q before export: %.300s | after import: %.300s", key, prev, out))
+			}
+		}
+	}
+}
+
+// diffGenesisSection names what changed inside a dump section.
+func diffGenesisSection(what []string, before, after string) []string {
+	sec := what[0]
+	switch sec {
+	case "pool":
+		return []string{"unbatched-pool"}
+	case "batches":
+		return []string{"batches"}
+	case "sets":
+		return []string{"signer-set-txs"}
+	case "sigs":
+		return []string{"confirmations"}
+	case "status":
+		var l []string
+		bs, as := strings.SplitN(before, " feerec ", 2), strings.SplitN(after, " feerec ", 2)
+		if bs[0] != as[0] {
+			l = append(l, "tx-status")
+		}
+		if len(bs) > 1 && len(as) > 1 && bs[1] != as[1] {
+			l = append(l, "tx-fee-records")
+		}
+		return l
+	case "votes":
+		var l []string
+		bs, as := strings.SplitN(before, " last ", 2), strings.SplitN(after, " last ", 2)
+		if bs[0] != as[0] {
+			l = append(l, "vote-records")
+		}
+		if len(bs) > 1 && len(as) > 1 && bs[1] != as[1] {
+			l = append(l, "last-nonce-by-validator")
+		}
+		return l
+	case "keys":
+		var l []string
+		f := func(s string) map[string]string {
+			r := map[string]string{}
+			cur := ""
+			for _, tok := range strings.Fields(s) {
+				if tok == "valext" || tok == "orchval" || tok == "extorch" {
+					cur = tok
+					continue
+				}
+				r[cur] = tok
+			}
+			return r
+		}
+		b, a := f(before), f(after)
+		if b["valext"] != a["valext"] {
+			l = append(l, "validator-external-address")
+		}
+		// stale orchestrator entries of re-registered validators are not exported; current ones must survive
+		for _, k := range []string{"orchval", "extorch"} {
+			as := map[string]bool{}
+			for _, it := range strings.Split(a[k], ";") {
+				as[it] = true
+			}
+			bsItems := strings.Split(b[k], ";")
+			lostCurrent := false
+			for _, it := range strings.Split(a[k], ";") {
+				found := false
+				for _, x := range bsItems {
+					if x == it {
+						found = true
+					}
+				}
+				if !found && it != "" {
+					lostCurrent = true
+				}
+			}
+			if lostCurrent {
+				l = append(l, "delegate-keys-altered("+k+")")
+			} else if len(as) < len(bsItems) && b[k] != a[k] {
+				l = append(l, "stale-delegate-key-entries("+k+")")
+			}
+		}
+		return l
+	case "counters":
+		var l []string
+		f := func(s string) map[string]string {
+			r := map[string]string{}
+			for _, tok := range strings.Fields(s) {
+				if i := strings.Index(tok, "="); i > 0 {
+					r[tok[:i]] = tok[i+1:]
+				}
+			}
+			return r
+		}
+		b, a := f(before), f(after)
+		names := map[string]string{"ste": "last-send-to-external-id", "batch": "last-batch-nonce", "seq": "outgoing-sequence", "set": "latest-signer-set-nonce",
+			"obs": "last-observed-event-nonce", "ch": "observed-height-cosmos-part", "eh": "observed-external-height", "los": "last-observed-signer-set"}
+		for k, n := range names {
+			if b[k] != a[k] {
+				l = append(l, n)
+			}
+		}
+		sort.Strings(l)
+		return l
+	case "bank":
+		return []string{"bank"}
+	}
+	return []string{sec}
 }
